@@ -57,16 +57,32 @@ def translate(repo):
     psi = _find(cls, ast.FunctionDef, "_Calc_Psi_Elas", ELASTIC)
     w = ELASTIC + ":_Calc_Psi_Elas"
     res["wdef_rule_is_rigi"] = _default(psi, "matrixType", w) == "MatrixType.rigi"
-    th = [n for n in ast.walk(psi) if isinstance(n, ast.Assign) and len(n.targets) == 1 and isinstance(n.targets[0], ast.Name) and n.targets[0].id == "thickness"]
-    if len(th) != 1:
-        raise TranslateError("%s: expected exactly one assignment to `thickness`" % w)
-    res["wdef_thickness_2d_only"] = _thickness_rule(ast.unparse(th[0].value), w)
-    src = ast.unparse(psi).replace(" ", "").replace("\n", "")
-    for need in ("self._Calc_Epsilon_e_pg(sol_u,groupElem,matrixType)", "self.material.Calc_Psi_e_pg(Eps)",
-                 "thickness*groupElem.Get_weightedJacobian_e_pg(matrixType)*psi", ".sum(1)", "sol_u=self.displacement",
-                 "self.mesh.Get_list_groupElem(self.dim)"):
-        if need not in src:
-            raise TranslateError("%s: expected `%s` (the energy model no longer matches the source)" % (w, need))
+    # partial evaluation per dimension (hoisted / renamed locals do not matter): the thickness factor is
+    # read off the evaluated element energies
+    from translator.peval import PEval as _PE
+    rule = {}
+    for d in (2, 3):
+        ret, eff = _PE(em, cls, leaves={"self.dim": d}, where=w).evaluate(psi, args={"smoothedStress": False, "returnScalar": False})
+        r = (ret or "").replace(" ", "")
+        if eff:
+            raise TranslateError("%s: unexpected side effects %r" % (w, eff[:1]))
+        for need in ("self._Calc_Epsilon_e_pg(self.displacement,groupElem,matrixType)", "self.material.Calc_Psi_e_pg(Eps)",
+                     "self.mesh.Get_list_groupElem(%d)" % d, ".sum(1)", "np.concatenate("):
+            if need not in r:
+                raise TranslateError("%s: expected `%s` in the element energies (the energy model no longer matches the source): %s" % (w, need, ret))
+        if "(self.material.thickness*groupElem.Get_weightedJacobian_e_pg(matrixType)*psi).sum(1)" in r:
+            rule[d] = True
+        elif any(x in r for x in ("(1*groupElem.Get_weightedJacobian_e_pg(matrixType)*psi).sum(1)", "(1.0*groupElem.Get_weightedJacobian_e_pg(matrixType)*psi).sum(1)",
+                                  "(groupElem.Get_weightedJacobian_e_pg(matrixType)*psi).sum(1)")):
+            rule[d] = False
+        else:
+            raise TranslateError("%s: Wdef_e for dim %d is not (thickness * wJ * psi).sum(1): %s" % (w, d, ret))
+    if rule == {2: True, 3: False}:
+        res["wdef_thickness_2d_only"] = True
+    elif rule == {2: True, 3: True}:
+        res["wdef_thickness_2d_only"] = False
+    else:
+        raise TranslateError("%s: thickness rule %r not recognised" % (w, rule))
     # ---- Construct_local_matrix_system
     loc = _find(cls, ast.FunctionDef, "Construct_local_matrix_system", ELASTIC)
     w = ELASTIC + ":Construct_local_matrix_system"
